@@ -8,14 +8,21 @@ PROPS = {}
 
 PROPS["C01"] = {
     "modules": ["IbexProofs.Props.C01"],
-    "harnesses": ["h_itv"],
+    "harnesses": ["h_itv", "h_elem"],
     "workloads": lambda tier, seed: [
         {"harness": "h_itv", "tag": "fwd", "args": ["c01", seed, 3000 if tier == "quick" else 60000] + (["full"] if tier == "thorough" else [])},
+        {"harness": "h_elem", "tag": "elem", "args": ["c01elem", seed, 600 if tier == "quick" else 20000] + (["full"] if tier == "thorough" else [])},
     ],
     "nontrivial": _nonempty_inputs,
     "rule": "lattice of special endpoints (pairs sampled in quick, exhaustive in thorough) + random intervals; a case is "
             "non-trivial when no argument is empty; distinct = distinct (operator, arguments) lines",
-    "assumptions": ["correspondence is sampled: impl result must contain the model's tightest outward-rounded hull on every generated input"],
+    "assumptions": ["correspondence is sampled: impl result must contain the model's tightest outward-rounded hull on every generated input",
+                    "MPFR (correct directed rounding at 53 bits) is the point oracle for elementary functions",
+                    "gaol/libultim/libm point functions are NOT proved; they are tested against MPFR at sample points (end points included)"],
+    "trusted": ["MPFR/GMP as oracle for elementary functions", "g++/x86-64 SSE2 IEEE-754 arithmetic"],
+    "technique": "Lean 4 proof (enclosure theorems over R for the model's tightest hulls, monotone lifting) + differential correspondence impl >= model / MPFR point oracle",
+    "level_text": "Kernel-checked theorems: for + - * / neg sqr sqrt abs max min sign floor ceil integer pow(int) the model's outward-rounded hull contains the real result for every real point of every (possibly unbounded) argument interval, and is empty only outside the domain; accepted implementation results contain the model hull (checked on every generated input, lattice of special endpoints exhaustive in the thorough tier). Elementary functions: monotone lifting theorems + MPFR-rigorous point checks (end points, critical points, random). Vector/matrix operators: not yet in the model.",
+    "level_note": "Trusted: Lean kernel + Mathlib, axioms propext/Classical.choice/Quot.sound; harness, line protocol and driver glue; MPFR as oracle; the correspondence is sampled. Known finding: libm-based hyperbolic bounds off by <=2 floats (third-party gaol).",
 }
 
 PROPS["C16"] = {
@@ -27,4 +34,5 @@ PROPS["C16"] = {
     "nontrivial": _nonempty_inputs,
     "rule": "lattice pairs + random/related intervals; exact equality with the model's set operation; non-trivial = no empty argument",
     "assumptions": [],
+    "claimed": False,
 }
